@@ -9,7 +9,7 @@ import json, os, shutil, subprocess, sys, time
 prop, wt, n = sys.argv[1], sys.argv[2], sys.argv[3]
 extra = sys.argv[4:]
 VERIF = "/verif"
-tag = "r2-" if "mut2" in wt else ("r3-" if "mut3" in wt else "")
+tag = "r2-" if "mut2" in wt else ("r3-" if "mut3" in wt else ("r4-" if "mut4" in wt else ""))
 dst = os.path.join(VERIF, "seeded", "%s-%s%s" % (prop, tag, n))
 patch = os.path.join(wt, "mutation-%s.patch" % n)
 demo = os.path.join(wt, "demo-%s" % n)
@@ -73,7 +73,8 @@ try:
         t0 = time.time()
         rc, out = sh("bin/vcheck %s quick 2>&1 | tail -12" % chk, cwd=VERIF)
         v = [l for l in out.splitlines() if l.startswith("VIOLATION")]
-        results[chk] = {"exit": "violation" if v else "pass", "line": (v[0] if v else out.strip().splitlines()[-1])[:300],
+        crashed = ("Traceback" in out) or not any(("%s quick:" % chk) in l or l.startswith("VIOLATION") for l in out.splitlines())
+        results[chk] = {"exit": "violation" if v else ("CHECK-CRASHED" if crashed else "pass"), "line": (v[0] if v else out.strip().splitlines()[-1])[:300],
                         "detail": [l[:300] for l in out.splitlines() if l.startswith(("ORACLE", "DIFF", "BROKEN"))][:4], "wall_s": round(time.time() - t0, 1)}
         print(chk, results[chk]["exit"], results[chk]["line"][:200])
 finally:
